@@ -360,7 +360,20 @@ func genC10(tier string, run int, r *simcore.Rand) *harness.Plan {
 	}
 	nops := r.Range(10, ch.maxOps)
 	p := &harness.Plan{Mode: "seq", Config: harness.MustJSON(cfg)}
+	// one run in 40 is wide: hundreds of rows in one range (an implementation
+	// that pages its scans internally meets a second page), with range
+	// boundaries inside that range among the keys
+	wideAt := -1
+	if run%40 == 17 {
+		wideAt = r.Intn(nops/2 + 1)
+		for _, k := range []string{"w|", "w|000100", "w|000256", "w|000257", "w}"} {
+			g.addKey(mkStr(k, 0, 0))
+		}
+	}
 	for i := 0; i < nops; i++ {
+		if i == wideAt {
+			p.Ops = append(p.Ops, harness.MustJSON(Op{K: "fill", N: r.Range(258, 1300)}))
+		}
 		var op Op
 		switch x := r.Intn(100); {
 		case x < 19:
